@@ -399,6 +399,76 @@ func extraC06(c *Ctx, r *Report) {
 			}
 		}
 	})
+	// the same tier cut out of the sorted slice: routable[:k], k = slices.IndexFunc(routable, e.Priority != first) (or len)
+	firstElemPriority := func(v ssa.Value) bool {
+		v = resolveCell(resolveOrigin(c, v, 6))
+		ld, ok := v.(*ssa.UnOp)
+		if !ok {
+			return false
+		}
+		fa, ok := ld.X.(*ssa.FieldAddr)
+		if !ok || !isField(fa, pkgDomain, "Endpoint", "Priority") {
+			return false
+		}
+		ld2, ok := fa.X.(*ssa.UnOp)
+		if !ok {
+			return false
+		}
+		ia, ok := ld2.X.(*ssa.IndexAddr)
+		if !ok {
+			return false
+		}
+		k, isK := constInt(ia.Index)
+		return isK && k == 0
+	}
+	if !tierOK {
+		eachInstr(fn, func(in ssa.Instruction) {
+			sl, ok := in.(*ssa.Slice)
+			if !ok || sl.Low != nil || sl.High == nil || !isEndpointSlice(sl.Type()) {
+				return
+			}
+			edges := []ssa.Value{sl.High}
+			if ph, ok := sl.High.(*ssa.Phi); ok {
+				edges = ph.Edges
+			}
+			cut := false
+			for _, e := range edges {
+				call, ok := e.(*ssa.Call)
+				if !ok {
+					return
+				}
+				if bi, ok := call.Call.Value.(*ssa.Builtin); ok && bi.Name() == "len" && sameValue(call.Call.Args[0], sl.X) {
+					continue
+				}
+				ci := describeCall(&call.Call)
+				if ci.Pkg != "slices" || ci.Name != "IndexFunc" || !sameValue(call.Call.Args[0], sl.X) {
+					return
+				}
+				mc, ok := call.Call.Args[1].(*ssa.MakeClosure)
+				if !ok {
+					return
+				}
+				pf := mc.Fn.(*ssa.Function)
+				for _, ret := range returnsOf(pf) {
+					bo, ok := ret.Results[0].(*ssa.BinOp)
+					if !ok || bo.Op != token.NEQ {
+						return
+					}
+					own, other := bo.X, bo.Y
+					if !derivesFromElem(stripLoad(own), pf.Params[0], 4) {
+						own, other = bo.Y, bo.X
+					}
+					if !derivesFromElem(stripLoad(own), pf.Params[0], 4) || !mentionsField(own, pkgDomain, "Endpoint", "Priority", 3) || !firstElemPriority(other) {
+						return
+					}
+				}
+				cut = true
+			}
+			if cut {
+				tierOK = true
+			}
+		})
+	}
 	key2 := fname(fn) + ":tier-membership"
 	if tierOK {
 		r.OK("C06-R4", key2, fn.Pos(), "tier = elements whose Priority equals the first (highest) element's")
@@ -597,11 +667,11 @@ func extraC08(c *Ctx, r *Report) {
 	}
 	bad := false
 	found := false
-	for _, ret := range returnsOf(fn) {
-		for _, cf := range condFacts(ret.Block()) {
+	for _, vr := range virtualReturns(fn, 0) {
+		for _, cf := range vr.Facts {
 			if cf.Cond == ssa.Value(cas) && !cf.True {
 				found = true
-				if _, isK := ret.Results[0].(*ssa.Const); isK {
+				if _, isK := vr.Val.(*ssa.Const); isK {
 					bad = true
 				}
 			}
@@ -617,4 +687,11 @@ func extraC08(c *Ctx, r *Report) {
 	}
 	addMutants(Mutant{Prop: "C08", Name: "stale-slot-never-released", File: "internal/adapter/health/circuit_breaker.go", Rule: "C08-R7",
 		Old: "			lastAttempt := atomic.LoadInt64(&state.lastAttempt)\n			return time.Unix(0, lastAttempt).Add(time.Second).After(time.Now())", New: "			return true"})
+}
+
+func stripLoad(v ssa.Value) ssa.Value {
+	if ld, ok := v.(*ssa.UnOp); ok && ld.Op == token.MUL {
+		return ld.X
+	}
+	return v
 }
